@@ -316,6 +316,159 @@ theorem receive_never_aborts (w : World) (ops : List (Block × Op)) (hb : Bounde
   · rcases hc with ⟨_, ha⟩ | ⟨_, ha, _⟩ <;> simp [ha]
 
 
+
+/-- `v2::update_denom` loop: every entry of the migrated channel ends up with `outstanding` equal to
+the contract's real balance of that denomination; nothing else changes. -/
+theorem updateDenoms_reconciles (ch : String) (hold : Denom → Option Nat) (es : List ((String × Denom) × ChanState))
+    (m m' : ChanMap) (h : updateDenoms ch hold es m = .ok m')
+    (hnd : (es.map (·.1)).Nodup) (hagree : ∀ e ∈ es, m.get? e.1 = some e.2) :
+    (∀ e ∈ es, e.1.1 = ch → ∃ bal, hold e.1.2 = some bal ∧ outAt m' e.1 = bal ∧ e.2.outstanding ≤ bal) ∧
+    (∀ k, (k ∉ es.map (·.1) ∨ k.1 ≠ ch) → outAt m' k = outAt m k) := by
+  induction es generalizing m with
+  | nil => simp [updateDenoms] at h; subst h; simp
+  | cons e rest ih =>
+    obtain ⟨⟨c, d⟩, cs⟩ := e
+    simp only [List.map_cons, List.nodup_cons] at hnd
+    obtain ⟨hnotin, hnd'⟩ := hnd
+    have hhead : m.get? (c, d) = some cs := hagree ((c, d), cs) (by simp)
+    unfold updateDenoms at h
+    split at h
+    · rename_i hc
+      split at h
+      · simp at h
+      · rename_i bal hbal
+        simp at h
+        obtain ⟨hle, h⟩ := h
+        -- the map after this entry
+        have key : ∃ m1, updateDenoms ch hold rest m1 = .ok m' ∧ outAt m1 (c, d) = bal ∧
+            (∀ k, k ≠ (c, d) → m1.get? k = m.get? k) := by
+          split at h
+          · rename_i hz
+            refine ⟨m, h, ?_, fun _ _ => rfl⟩
+            simp [outAt, hhead]; omega
+          · simp at h
+            obtain ⟨_, _, h⟩ := h
+            refine ⟨_, h, ?_, ?_⟩
+            · simp [outAt]; omega
+            · intro k hk; exact AMap.get?_set_ne _ _ _ _ (Ne.symm hk)
+        obtain ⟨m1, h1, hout, hframe⟩ := key
+        have hagree' : ∀ e ∈ rest, m1.get? e.1 = some e.2 := by
+          intro e he
+          have hne : e.1 ≠ (c, d) := by
+            intro eq; apply hnotin; rw [← eq]; exact List.mem_map_of_mem he
+          rw [hframe _ hne]; exact hagree e (by simp [he])
+        obtain ⟨ih1, ih2⟩ := ih m1 h1 hnd' hagree'
+        constructor
+        · intro e he hch
+          simp at he
+          rcases he with rfl | he
+          · refine ⟨bal, hbal, ?_, hle⟩
+            rw [ih2 (c, d) (Or.inl hnotin)]; exact hout
+          · exact ih1 e he hch
+        · intro k hk
+          have hk' : k ≠ (c, d) := by
+            rcases hk with hk | hk
+            · intro eq; apply hk; simp [eq]
+            · intro eq; apply hk; rw [eq]; exact hc
+          have : k ∉ rest.map (·.1) ∨ k.1 ≠ ch := by
+            rcases hk with hk | hk
+            · left; intro hin; apply hk; simp at hin ⊢; right; exact hin
+            · right; exact hk
+          rw [ih2 k this]
+          simp [outAt, hframe k hk']
+    · rename_i hc
+      have hagree' : ∀ e ∈ rest, m.get? e.1 = some e.2 := fun e he => hagree e (by simp [he])
+      obtain ⟨ih1, ih2⟩ := ih m h hnd' hagree'
+      constructor
+      · intro e he hch
+        simp at he
+        rcases he with rfl | he
+        · exact absurd hch hc
+        · exact ih1 e he hch
+      · intro k hk
+        by_cases hkk : k = (c, d)
+        · subst hkk; exact ih2 (c, d) (Or.inl hnotin)
+        · apply ih2 k
+          rcases hk with hk | hk
+          · left; intro hin; apply hk; simp at hin ⊢; right; exact hin
+          · right; exact hk
+
+
+theorem get?_of_mem_nodup {m : ChanMap} (hnd : (m.map (·.1)).Nodup) {e : Key × ChanState} (he : e ∈ m) :
+    m.get? e.1 = some e.2 := by
+  induction m with
+  | nil => cases he
+  | cons x rest ih =>
+    obtain ⟨k, v⟩ := x
+    simp only [List.map_cons, List.nodup_cons] at hnd
+    simp at he
+    rcases he with rfl | he
+    · simp [AMap.get?]
+    · have hne : k ≠ e.1 := by
+        intro eq; apply hnd.1; rw [eq]; exact List.mem_map_of_mem he
+      simp [AMap.get?, hne]; exact ih hnd.2 he
+
+theorem mem_of_get? {m : ChanMap} {k : Key} {v : ChanState} (h : m.get? k = some v) : (k, v) ∈ m := by
+  induction m with
+  | nil => simp [AMap.get?] at h
+  | cons x rest ih =>
+    obtain ⟨k', v'⟩ := x
+    by_cases hk : k' = k
+    · subst hk; simp [AMap.get?] at h; subst h; simp
+    · simp [AMap.get?, hk] at h; simp; right; exact ih h
+
+/-- **C12, migration lemma (balance reconciliation)**: `v2::update_balances` on a contract with exactly
+one channel (distinct storage keys) sets, for every denomination with an entry on that channel, the
+outstanding balance to the contract's real balance of that denomination (which must not be smaller
+than the booked one, else the migration fails); entries of other keys are untouched. -/
+theorem updateBalances_reconciles {s s' : State} {hold : Denom → Option Nat} {ch : String}
+    (hch : s.channels = [ch]) (hnd : (s.chan.map (·.1)).Nodup) (h : updateBalances s hold = .ok s') :
+    (∀ d cs, s.chan.get? (ch, d) = some cs →
+      ∃ bal, hold d = some bal ∧ outstanding s' ch d = bal ∧ cs.outstanding ≤ bal) ∧
+    (∀ c d, c ≠ ch → outstanding s' c d = outstanding s c d) := by
+  unfold updateBalances at h
+  rw [hch] at h
+  simp at h
+  obtain ⟨m, hm, rfl⟩ := h
+  obtain ⟨r1, r2⟩ := updateDenoms_reconciles ch hold s.chan s.chan m hm hnd (fun e he => get?_of_mem_nodup hnd he)
+  constructor
+  · intro d cs hg
+    exact r1 ((ch, d), cs) (mem_of_get? hg) rfl
+  · intro c d hc
+    exact r2 (c, d) (Or.inr hc)
+
+/-- **C12, migration lemma (config rewrite)**: migrating a pre-0.12 layout (`v1::CONFIG` with
+`gov_contract`) installs the old `gov_contract` as admin, keeps `default_timeout`, and the default
+gas limit is exactly what the migrate message sets (unset if it sets none); the allow list is kept. -/
+theorem migrate_v1_config {s s' : State} {gas : Option Nat} {hold : Denom → Option Nat} {gov : Addr}
+    (hv : Version.le s.version MIGRATE_VERSION_2 = true) (hg : s.v1gov = some gov)
+    (h : migrate s gas hold = .ok s') :
+    s'.admin = some gov ∧ s'.v1gov = none ∧ s'.config.defaultTimeout = s.config.defaultTimeout ∧
+    s'.config.defaultGasLimit = gas ∧ s'.allow = s.allow := by
+  simp [migrate] at h
+  obtain ⟨_, _, _, s1, h1, s2, h2, s3, h3, rfl⟩ := h
+  simp [hv, hg] at h1
+  subst h1
+  have e2 : s2.admin = some gov ∧ s2.v1gov = none ∧ s2.config = ⟨s.config.defaultTimeout, none⟩ ∧ s2.allow = s.allow := by
+    split at h2
+    · unfold updateBalances at h2
+      split at h2
+      · simp at h2; subst h2; exact ⟨rfl, rfl, rfl, rfl⟩
+      · simp at h2; obtain ⟨m, _, rfl⟩ := h2; exact ⟨rfl, rfl, rfl, rfl⟩
+      · simp at h2
+    · simp at h2; subst h2; exact ⟨rfl, rfl, rfl, rfl⟩
+  obtain ⟨a2, b2, c2, d2⟩ := e2
+  have e3 : s3.admin = some gov ∧ s3.v1gov = none ∧ s3.config.defaultTimeout = s.config.defaultTimeout ∧
+      s3.config.defaultGasLimit = gas ∧ s3.allow = s.allow := by
+    split at h3
+    · rename_i g
+      simp [loadConfig, b2] at h3
+      subst h3
+      simp [a2, b2, c2, d2]
+    · simp at h3; subst h3; simp [a2, c2, d2, b2]
+  split <;> exact e3
+
+
 /-! ## Non-vacuity: concrete histories -/
 
 def w0 : World :=
